@@ -156,7 +156,7 @@ def run(ctx):
     R("R6.register", "registration reaches the per-thread map insertion exactly once per path and keeps the Arc the event writes to", floor=3)
     R("R7.batch-size", "every observe entry point passes the batch size field (Event::*: the constant 1) and the magnitude unchanged to insert", floor=8)
     R("R7.report-merge", "Report::collect snapshots every bag visited and merges or inserts it under its event name", floor=2)
-    R("R7.report-fields", "EventMetrics::new copies count and sum from the merged snapshot; overflow bucket = count - sum(bucket counts)", floor=3)
+    R("R7.report-fields", "EventMetrics::new copies count and sum from the merged snapshot; overflow bucket = count - sum(bucket counts), clamped at 0 (a concurrent report may see the buckets ahead of the count)", floor=3)
 
     ins_l = prog.one(INS_L)
     ins_s = prog.one(INS_S)
@@ -241,6 +241,25 @@ def run(ctx):
             g_ok = any(g["src"].get("kind") == "discr" for g in guards)
             ok = ok and g_ok
             det += f"; bucket write guarded by the selector's discriminant: {g_ok}"
+        if bw and cw:
+            # after the count was written, the only ways past the bucket write are: no buckets configured (is_empty / first / last
+            # yielding None) or the first-match scan finding no bucket (None) - never a shortcut decided by comparing the magnitude
+            from ..analysis import skips_only_via
+
+            def sanctioned(u, v, src, lab):
+                if src.get("kind") == "call" and src["term"]["callee"].get("method") == "is_empty":
+                    return lab != 0
+                if src.get("kind") == "discr":
+                    pl = src.get("place") or {}
+                    psl = Slice(b, through_calls=False).run({"k": "copy", "place": {"l": pl.get("l", 0), "p": []}})
+                    meths = {t["callee"].get("method") for _k, _b, t in psl["calls"]}
+                    listed = [x for x, _t in b.blocks[u].term["arms"]]
+                    none_edge = lab == 0 or (lab == "otherwise" and listed == [1])
+                    return none_edge and bool(meths & (FIRST_MATCH | {"last", "first", "next", "get", "checked_sub", "split_last", "split_first"}))
+                return False
+            only, _e = skips_only_via(b, bw_bbs, sanctioned, start=cw[0])
+            ok = ok and only
+            det += f"; bucket write skipped only when there are no buckets or no bucket matches: {only}"
         ctx.ob("R2.exits", tag, ok, where, det)
 
         # bucket add
@@ -1235,7 +1254,10 @@ def report_rules(ctx, prog):
                 nm = call_names(sl)
                 extra = set(nm) - {"saturating_sub", "wrapping_sub", "checked_sub", "sum", "iter", "into_iter", "copied", "cloned",
                                    "deref", "as_ref", "unwrap_or", "unwrap_or_default"}
-                ok = ("saturating_sub" in nm or "wrapping_sub" in nm or "Sub" in sl["binops"]) and "sum" in nm and not extra and \
+                # the subtraction must not wrap: a report taken while another thread observes can read buckets that are ahead of
+                # `count`; `count - sum` then has to bottom out at 0 (saturating_sub, or checked_sub + unwrap_or(0)), not at 2^64
+                clamped = "saturating_sub" in nm or ("checked_sub" in nm and bool({"unwrap_or", "unwrap_or_default"} & set(nm)))
+                ok = clamped and "sum" in nm and not extra and \
                     any(f.endswith("ObservationBagSnapshot::count") for f in sl["fields"]) and \
                     any(f.endswith("ObservationBagSnapshot::bucket_counts") for f in sl["fields"])
                 c_sl = Slice(em).run(o[1])
